@@ -61,7 +61,10 @@ class SymK(KBase):
             self.names.append((name, 'bits', (n, v)))
             return ba
 
-    def int(self, name, lo=None, hi=None):
+    def int(self, name, lo=None, hi=None, edges=0, pins=None):
+        """fresh solver integer in [lo, hi].  edges=k additionally case-splits the path on the k lowest and k highest values of
+        the range (each pinned by a solver constraint) versus the interior, so that code which concretises the value still
+        visits the range boundaries first."""
         from crosshair.tracers import NoTracing
         from crosshair.libimpl.builtinslib import SymbolicInt
         import z3
@@ -72,7 +75,19 @@ class SymK(KBase):
             if hi is not None:
                 self.space.add(x.var <= hi)
             self.names.append((name, 'int', x))
-            return x
+        if edges and lo is not None and hi is not None and hi - lo >= 2 * edges:
+            pins = [lo + j for j in range(edges)] + [hi - j for j in range(edges)] + list(pins or [])
+        if pins:
+            pins = sorted(set(pv for pv in pins if (lo is None or pv >= lo) and (hi is None or pv <= hi)))
+            for j, pv in enumerate(pins):
+                if self.bool(f'{name}@edge{j}'):
+                    with NoTracing():
+                        self.space.add(x.var == pv)
+                    return x
+            with NoTracing():
+                for pv in pins:
+                    self.space.add(x.var != pv)
+        return x
 
     def bool(self, name):
         """a concrete bool chosen by a solver fork (both values explored)"""
@@ -260,7 +275,7 @@ class ConcK(KBase):
         self.names.append((name, 'bits', s))
         return bitarray.bitarray(s)
 
-    def int(self, name, lo=None, hi=None):
+    def int(self, name, lo=None, hi=None, edges=0, pins=None):
         v = self._get(name)
         self.names.append((name, 'int', v))
         return v
